@@ -303,11 +303,23 @@ HAND = [
 ]
 
 
+SBC_PREFIXES = ['', ' ', '\t', '\r', '\x0c', '\n', '\n\t', '\n\x0c ', '\r\n', ' \r', 'x', 'x\x0c', '\x0b', ';\t', '\n \r\x0c\t']
+SBC_COMMENTS = ['// c\n', '/// d\n', '/* b */', '/* a\n\tb */']
+SBC_CONTEXTS = ['%s', 'a%s', 'a:%sb;', 'a: b%s;', 'a: (%sb);', 'a: b |%sc;', 'token A;%sstart s;', 'token A%sB;', 'a b %s c']
+
+
+def sbc_texts():
+    """every blank / newline / other byte in front of every kind of comment, at file level, inside declarations,
+    brackets, alternations and error nodes (what space_before_comment scans)"""
+    return [ctx % (p + c) for ctx in SBC_CONTEXTS for p in SBC_PREFIXES for c in SBC_COMMENTS]
+
+
 def sample_texts(rng, quick, extra=None):
     """[(generator, text)]: repo files, layouts, mutants, erroneous variants, hand-written shapes, soup"""
     import k4_front as k4
     import checks_front as cf
     out = [('hand', t) for t in HAND]
+    out += [('comment_prefix', t) for t in sbc_texts()]
     srcs = cf.repo_sources()
     for p, t, toks, valid in srcs:
         out.append(('repo_file', t))
@@ -484,6 +496,110 @@ def correspondence(rng, quick, extra=None, texts=None, max_problems=3):
                 dict(sorted(st[k].items(), key=lambda kv: int(kv[0].split('-')[0])))
     st['wall_s'] = round(time.time() - t0, 1)
     return st, keep
+
+
+# ---------------------------------------------------------------- hook for checks_front
+
+FMT_THEOREMS = ['C17_items_keep_the_content', 'C17_items_keep_the_non_whitespace_characters', 'C17_conditions_hold_signals_only',
+                'C17_strings_have_no_tab_or_newline', 'C17_indentation_balanced_on_every_paired_resolution', 'C17_alt_conditions_come_in_pairs',
+                'C17_newline_groups_balanced', 'C17_generator_returns_only_without_unreachable_kinds', 'C17_unreachable_kind_is_the_panic']
+
+FMT_SCOPE = ('for ALL trees and source texts (every shape, unbounded): if the item generator gen_cst returns, the non-whitespace bytes of its string items in order are '
+             'those of the token leaves (a line/doc comment minus its last byte, Whitespace tokens contribute nothing; equal to the non-whitespace bytes of all leaves when '
+             'the token texts have the lexer\'s shape); conditions hold signals only; no string item contains a tab or newline; StartIndent/FinishIndent are balanced on every '
+             'resolution that gives the two multilineAlt conditions of one separator the same answer; new-line groups are balanced; the generator returns only for trees '
+             'without a Decl/Postfix/Regex node, which is exactly the unreachable!() panic.  NOT covered by a theorem: dprint-core\'s printer (items -> text), idempotence (C18).')
+
+FMT_TRUSTED = ['dprint-core 0.67.4 printer (formatting::format: save points, width-dependent choices, condition resolution): NOT modelled; the link items -> output '
+               'is tested per text (non-whitespace characters of the output = those of the string items)',
+               'the hook lelwel::backend::format::verif_items (cfg lelwel_verif) renders the items faithfully; condition resolvers, is_stored/store_save_point and the '
+               'condition a reevaluation refers to are not reachable through dprint-core\'s API and are not compared',
+               'ocaml/fmtdriver.ml, tools/k4_fmtmodel.py (tree transfer, canonical item form, diff), harness/src/fmtitems.rs: trusted for the correspondence only',
+               'modelled, not verified: text as UTF-8 bytes (char-boundary panics of str slicing are outside the model), usize as nat, a token\'s text given with the tree '
+               '(in the code it is the source slice of its span); Coq 8.16.1 kernel, ExtrOcamlBasic extraction']
+
+
+def sample_jobs(jobs, rng, limit, per_job=200, max_len=20000, total_bytes=400000):
+    """a bounded sample of the texts of checks_front's K4 jobs: [(generator, text)]"""
+    import k4_front
+    out = []
+    for j in jobs:
+        if j.get('gen') == 'seq':
+            n, lo, hi = j['n'], j['lo'], j['hi']
+            if n == 0:
+                ts = ['']
+            else:
+                ts = [k4_front.seq_text(n, rng.randrange(lo, hi)) for _ in range(min(per_job // 8 + 1, hi - lo))]
+        else:
+            ts = j.get('texts', [])
+            if len(ts) > per_job:
+                ts = rng.sample(ts, per_job)
+        out += [('k4:' + str(j.get('gen')), t) for t in ts if len(t) <= max_len]
+    if len(out) > limit:
+        out = rng.sample(out, limit)
+    kept, size = [], 0
+    for g, t in out:
+        if size + len(t) > total_bytes:
+            continue
+        kept.append((g, t))
+        size += len(t)
+    return kept
+
+
+def check_hook(ck, pid, extra=None):
+    """called by checks_front.check_C17 / check_C18 (one line each).  C17: proof step for the formatter theorems in
+    Props/C17.v (build, audit, Print Assumptions, pinned names) and the K4f correspondence; C18: the correspondence on
+    the layouts it explores (there is no theorem for C18).  Returns the entries to merge into ck.cov."""
+    t0 = time.time()
+    quick = ck.tier == 'quick'
+    cov = {}
+    proof_ok = True
+    thms = FMT_THEOREMS if pid == 'C17' else []
+    if pid == 'C17':
+        ok, msg = lv.build_model()
+        audit = lv.audit_sources() if ok else []
+        okp, found, rep = lv.check_props(pid) if ok else (False, [], msg)
+        missing = [t for t in thms if t not in found]
+        proof_ok = ok and okp and not audit and not missing
+        if not proof_ok:
+            why = ('Coq development does not build: ' + msg[-800:]) if not ok else ('forbidden declarations: ' + '; '.join(audit[:5])) if audit else \
+                  ('pinned theorems missing from Props/C17.v: %s' % missing) if (okp and missing) else ('Props/C17.v does not check: %s' % rep[-800:])
+            ck.violation('proof (formatter item generator, C17): %s' % why, {'broken': why, 'theorems': thms}, no_input=True)
+    t1 = time.time()
+    try:
+        st, probs = correspondence(ck.rng, quick, extra=extra)
+        corr_err = None
+    except Exception as e:
+        st, probs, corr_err = {}, [], repr(e)
+        ck.violation('K4f correspondence (Fmt.v vs src/backend/format.rs) could not run: %s' % corr_err[-800:], {'broken': corr_err[-2000:]}, no_input=True)
+    for p in probs[:3]:
+        direct = None
+        try:
+            import checks_front
+            direct = checks_front.oracle('C17', [p['text']])[0]
+        except Exception as e:
+            lv.log('direct oracle on a K4f problem failed: %r' % e)
+        if p['kind'] == 'printer_link' and direct is not None and pid == 'C17':
+            # the property itself fails on this text: a violation with a failing input
+            ck.violation(direct['what'] + ' [found through the K4f printer link]', {'text': p['text'], 'original_text': p.get('original_text'), 'kind': direct['kind'],
+                                                                                    'classes': direct.get('classes', []), 'generator': p['generator']})
+        else:
+            ck.violation('K4f: %s on %r [generator %s; the formatter theorems of C17 no longer transfer to the implementation]' % (p['what'], p['text'][:80], p['generator']),
+                         {'text': p['text'], 'original_text': p.get('original_text'), 'kind': 'fmt_model_' + p['kind'], 'classes': [], 'generator': p['generator']}, no_input=True)
+    corr_ok = corr_err is None and not probs
+    cov['fmt_model_correspondence'] = st
+    cov['fmt_model_problems'] = [{'kind': p['kind'], 'what': p['what'][:300], 'text': p['text'][:300]} for p in probs]
+    cov['fmt_hook_cost_s'] = {'proof_step': round(t1 - t0, 2), 'correspondence': round(time.time() - t1, 2)}
+    if pid == 'C17':
+        cov['fmt_obligations'] = len(thms) + 2
+        cov['fmt_discharged'] = (len(thms) if proof_ok else 0) + (1 if corr_ok else 0) + (1 if corr_err is None and not st.get('printer_link_failed') else 0)
+        cov['fmt_checker_cmd'] = ('make -C coq (coq_makefile, full .vo) ; coqc -Q . LV Props/C17.v (Print Assumptions parsed) ; source audit grep ; '
+                                  'python3 tools/k4_fmtmodel.py (K4f correspondence: lv-harness fmtitems vs ocaml/fmtdriver, item by item; printer link)')
+        cov['fmt_theorems'] = thms
+        cov['fmt_theorems_assumptions'] = 'Closed under the global context (all %d)' % len(thms) if proof_ok else 'NOT ESTABLISHED in this run'
+        cov['fmt_theorem_scope'] = FMT_SCOPE
+        cov['fmt_trusted_base'] = FMT_TRUSTED
+    return cov
 
 
 if __name__ == '__main__':
